@@ -100,7 +100,8 @@ PENDING = {}
 
 
 def cmd(pid, tier):
-    return f"timeout 3000 /venv/bin/python /verif/check.py {pid} --tier {tier}"
+    # quick: a few minutes; thorough: submission of new runs stops after 40 minutes (wall_cap), running batches and minimisation finish after it
+    return f"timeout {3000 if tier == 'quick' else 5400} /venv/bin/python /verif/check.py {pid} --tier {tier}"
 
 
 def main():
